@@ -231,6 +231,12 @@ func checkC15(c *Ctx) {
 			// inside an operation closure, or in a helper that is only ever reached from
 			// operation closures (or the constructor)
 			okA, _ := p.OnlyReachedFrom(fn, func(g *ssa.Function) bool { return isOpClosure(g) || opFns[g] || g == hubNew })
+			// an exported method is an entry point of its own (it is also handed out as a method
+			// value — hub.Dispatch registered with the event brokers — which does not make the
+			// function that created the value its only caller)
+			if fn.Parent() == nil && fn != hubNew && !opFns[fn] && fn.Object() != nil && fn.Object().Exported() {
+				okA = false
+			}
 			if !okA {
 				badActor["Hub."+f.Name()+"@"+shortFn(fn)] = p.InstrPos(in)
 			}
